@@ -1,4 +1,5 @@
-(* Prove/DFPN.v (draft): prove/dfpn.go *)
+(* Prove/DFPN.v: prove/dfpn.go.  Fuel: dfuel bounds the recursion depth of mid, lfuel the iterations of each mid loop;
+   dfuel_out records that the depth fuel ran out (the result is then meaningless; the driver reports it). *)
 From Coq Require Import NArith ZArith List Bool Lia.
 Require Import Board Move GameOver Eval Search.
 Import ListNotations.
@@ -15,7 +16,7 @@ Section D.
 Variable basis : list N.
 Variable attacker_white : bool.
 
-Definition dmv := move_prealloc (hash_sq basis) false.
+Definition dmv := move_prealloc (hash_sq basis) true.
 Definition exceeded (phi delta bphi bdelta : N) : bool := (bphi <=? phi) || (bdelta <=? delta).
 
 Definition terminal_bounds (p : position) (result : gcolor) : N * N :=
@@ -67,7 +68,7 @@ Definition select_child (cs : list dchild) (bphi bdelta pdelta : N) : Z * (N * N
         let d := d_delta (ch_data (snd ic)) in
         if d <? d1 then (Z.of_nat (fst ic), d, d1) else if d <? d2 then (best, d1, d) else acc)
       (combine (seq 0 (length cs)) cs) ((-1)%Z, INF, INF) in
-  let phi1 := d_phi (ch_data (nth (Z.to_nat best) cs {| ch_move := move0; ch_g := ch_g (hd {| ch_move := move0; ch_g := pass_move (ch_g (hd {| ch_move := move0; ch_g := {| size := 0; black_wins_ties := false; whiteStones := 0; whiteCaps := 0; blackStones := 0; blackCaps := 0; move := 0%Z; White := 0; Black := 0; Standing := 0; Caps := 0; Height := []; Stacks := []; hash := 0 |}; ch_data := dentry0 |} cs)); ch_data := dentry0 |} cs); ch_data := dentry0 |})) in
+  let phi1 := match nth_error cs (Z.to_nat best) with Some c => d_phi (ch_data c) | None => 0 end in
   (best, ((bdelta + phi1 - pdelta) mod 2 ^ 32, N.min bphi (N.min (N.max (d2 + 1) (11 * d2 / 10)) INF))).
 
 Definition bump_d (s : dstate) (f : dstats -> dstats) : dstate :=
@@ -83,7 +84,7 @@ Definition swap_first_last (cs : list dchild) : list dchild :=
   | c0 :: r => match rev r with l :: mid => l :: rev mid ++ [c0] | [] => cs end
   end.
 
-Fixpoint mid (fuel : nat) (s : dstate) (g : position) (bphi bdelta : N) (cur : dentry) : dstate * dentry * N :=
+Fixpoint mid (lfuel : nat) (fuel : nat) (s : dstate) (g : position) (bphi bdelta : N) (cur : dentry) : dstate * dentry * N :=
   match fuel with O => ({| dtable := dtable s; dstack := dstack s; killers := killers s; dst := dst s; dfuel_out := true |}, cur, 0) | S f =>
   if exceeded (d_phi cur) (d_delta cur) bphi bdelta then (s, cur, 0) else
   if check_repetition s then
@@ -131,7 +132,10 @@ Fixpoint mid (fuel : nat) (s : dstate) (g : position) (bphi bdelta : N) (cur : d
     (fix loop (k : nat) (s : dstate) (children : list dchild) (cur : dentry) (lw : N) : dstate * dentry * N :=
        let '(ph, de) := compute_pns children in
        let cur := {| d_phi := ph; d_delta := de; d_hash := d_hash cur; d_work := d_work cur; d_pv := d_pv cur |} in
-       match k with O => (s, cur, lw) | S k' =>
+       match k with
+       | O => ((if exceeded ph de bphi bdelta then s
+                else {| dtable := dtable s; dstack := dstack s; killers := killers s; dst := dst s; dfuel_out := true |}), cur, lw)
+       | S k' =>
          if exceeded ph de bphi bdelta then (s, cur, lw) else
          let '(best, (cphi, cdelta)) := select_child children bphi bdelta de in
          let bi := Z.to_nat best in
@@ -140,12 +144,12 @@ Fixpoint mid (fuel : nat) (s : dstate) (g : position) (bphi bdelta : N) (cur : d
          | Some ch =>
            let cur := {| d_phi := ph; d_delta := de; d_hash := d_hash cur; d_work := d_work cur; d_pv := ch_move ch |} in
            let s1 := {| dtable := dtable s; dstack := dstack s ++ [(ch_g ch, ch_move ch)]; killers := killers s; dst := dst s; dfuel_out := dfuel_out s |} in
-           let '(s2, ne, w) := mid f s1 (ch_g ch) cphi cdelta (ch_data ch) in
+           let '(s2, ne, w) := mid lfuel f s1 (ch_g ch) cphi cdelta (ch_data ch) in
            let s3 := {| dtable := dtable s2; dstack := dstack s; killers := killers s2; dst := dst s2; dfuel_out := dfuel_out s2 |} in
            if dfuel_out s2 then (s3, cur, lw) else
            loop k' s3 (set_child children bi ne) {| d_phi := d_phi cur; d_delta := d_delta cur; d_hash := d_hash cur; d_work := d_work cur + w; d_pv := d_pv cur |} (lw + w)
          end
-       end) 4000%nat s children cur 1 in
+       end) lfuel s children cur 1 in
   let s := if d_phi cur =? 0 then
              let ks := killers s ++ repeat move0 (S depth - length (killers s)) in
              {| dtable := dtable s; dstack := dstack s; killers := set_nth ks depth (d_pv cur); dst := dst s; dfuel_out := dfuel_out s |}
@@ -153,8 +157,16 @@ Fixpoint mid (fuel : nat) (s : dstate) (g : position) (bphi bdelta : N) (cur : d
   (store s cur, cur, work)
   end.
 
-Definition prove (table_entries : nat) (g : position) : dstate * dentry * N :=
-  mid 400 {| dtable := repeat dentry0 table_entries; dstack := []; killers := [];
+(* the tail of Prove(): phi/delta at the root are relative to the side to move, the reported result to the attacker.
+   1 proven, 2 disproven, 0 unknown *)
+Definition result_of (g : position) (e : dentry) : N :=
+  let mover_wins := d_phi e =? 0 in
+  let mover_loses := d_delta e =? 0 in
+  let '(w, l) := if Bool.eqb attacker_white (to_move_white g) then (mover_wins, mover_loses) else (mover_loses, mover_wins) in
+  if w then 1 else if l then 2 else 0.
+
+Definition prove (lfuel dfuel : nat) (table_entries : nat) (g : position) : dstate * dentry * N :=
+  mid lfuel dfuel {| dtable := repeat dentry0 table_entries; dstack := []; killers := [];
              dst := {| ds_rep := 0; ds_term := 0; ds_solved := 0; ds_hits := 0; ds_miss := 0 |}; dfuel_out := false |}
       g (INF / 2) (INF / 2) {| d_phi := 1; d_delta := 1; d_hash := hash_of g; d_work := 0; d_pv := move0 |}.
 End D.
